@@ -33,6 +33,13 @@ GridPts == {<<x, y>> : x \in {-3, -1, 1, 3}, y \in (IF GeoRich THEN {-3, -2, 0, 
 GridSegs == {PL(<<p[1], q[1]>>, <<p[2], q[2]>>) : p, q \in GridPts} \ {PL(<<p[1], p[1]>>, <<p[2], p[2]>>) : p \in GridPts}
 Zigzags == {PL(<<-3, -1, 1, 3>>, <<-2, 2, -2, 2>>), PL(<<-3, 3, -3, 3>>, <<-3, -1, 1, 3>>), PL(<<1, 3, 1, 3>>, <<-3, -3, -1, -1>>)}
 
+(* points ON the polyline, very close to (but not at) an interior vertex: distances to the two neighbouring  *)
+(* segments differ by ~1e-3, far more than the 1e-6 of the equidistance filter                                *)
+NearVertexPts(c) ==
+  LET ks == Knots(c.U) IN
+  {<<PX(c, u), PY(c, u)>> : u \in {Sub(ks[i], Mul(Sub(ks[i], ks[i - 1]), Q(1, 1024))) : i \in 2..(Len(ks) - 1)}
+                                   \cup {Add(ks[i], Mul(Sub(ks[i + 1], ks[i]), Q(1, 2048))) : i \in 2..(Len(ks) - 1)}}
+
 MCArgs(name, h, dep) ==
   IF name \notin Acts THEN {} ELSE
   IF name \in {"KvGen", "MemoRequest"} /\ h["s"].i # 0 THEN {} ELSE
@@ -48,6 +55,8 @@ MCArgs(name, h, dep) ==
          UNION {{[curve |-> c, px |-> q[1], py |-> q[2], elev |-> e] : q \in QueryPts,
                                                                 e \in (IF Len(c.X) = 2 THEN {0, 1} ELSE {0})}
                 : c \in {x \in Lines : Mine(h, x)}}
+         \cup UNION {{[curve |-> c, px |-> q[1], py |-> q[2], elev |-> 0] : q \in NearVertexPts(c)}
+                      : c \in {x \in Lines \cup Zigzags : Mine(h, x) /\ Len(x.X) >= 3}}
          \cup {[curve |-> c, px |-> Q(x, 2), py |-> Q(y, 2), elev |-> 0] : c \in {x \in Zigzags \cup (IF GeoRich THEN GridSegs ELSE {}) : Mine(h, x)},
                                                                   x \in {-9, -4, 0, 1, 5, 8}, y \in {-7, -2, 0, 3, 6}}
     [] name = "GeoIntersect" ->
